@@ -16,7 +16,9 @@ META = {
             "methods and paths), C32_fewest_vars (unless a candidate is spelled exactly like the path, the chosen route has no "
             "more variables than any other candidate, for every order), C32_refuted (the unrestricted claim is false: '/' and "
             "'/x' for path '/x'; replayed on the real code and recorded as known findings per deciding stage). The model is "
-            "compared with the real FindRoute (all permutations of the model vs. re-built and re-iterated real maps), and det is "
+            "compared with the real FindRoute (all permutations of the model vs. re-built and re-iterated real maps; histories "
+            "that interleave Router.New and FindRoute on one router instance, each lookup also compared with a fresh router "
+            "holding the same routes), and det is "
             "evaluated by coqc on the REAL route table of this tree (dumped from the real declarations on every run) for a "
             "generated family of request classes. partial: for the real table det is checked on an enumerated family of "
             "requests derived from the table (prefixes, missing/extra/empty segments, every method), not proved for all paths; "
@@ -119,6 +121,45 @@ def gen_cases(rng, ncases):
         reqs = [[rng.choice(["GET", "GET", "POST", "get", "DELETE", "PUT"]), p] for p in gen_paths(rng, routes, 4)]
         cases.append({"routes": routes, "reqs": reqs})
     return cases
+
+
+HIST_CORPUS = [
+    [["R", "/dsns/{{dsn}}/tables/{{table}}", "GET"], ["L", "GET", "/dsns/prod/tables/@sql"],
+     ["R", "/dsns/{{dsn}}/tables/@sql", "GET"], ["L", "GET", "/dsns/prod/tables/@sql"], ["L", "GET", "/dsns/prod/tables/@sql/"]],
+    [["L", "GET", "/a"], ["R", "/{{v}}", "ANY"], ["L", "GET", "/a"], ["L", "get", "/a"], ["R", "/a", "GET"], ["L", "GET", "/a"],
+     ["R", "/a/", "GET"], ["L", "GET", "/a"], ["L", "POST", "/a"]],
+    [["R", "/a/{{g...}}", "GET"], ["L", "GET", "/a/b"], ["R", "/a/b", "GET"], ["L", "GET", "/a/b"], ["L", "GET", "/a/b/c"]],
+]
+
+
+def gen_histories(rng, cases, n):
+    """registrations in a random order; after every registration each request of the case is looked up again"""
+    out = []
+    for c in cases:
+        if len(out) >= n:
+            break
+        if len(c["routes"]) < 2:
+            continue
+        regs = list(c["routes"])
+        rng.shuffle(regs)
+        reqs = c["reqs"][:3]
+        h = [["L"] + reqs[0]]
+        for r in regs:
+            h.append(["R"] + r)
+            h += [["L"] + q for q in reqs]
+        out.append(h)
+    return out
+
+
+def history_lookups(h):
+    """[(routes registered so far, request)] for every lookup of the history, in order"""
+    sofar, out = [], []
+    for o in h:
+        if o[0] == "R":
+            sofar = sofar + [[o[1], o[2]]]
+        else:
+            out.append((sofar, [o[1], o[2]]))
+    return out
 
 
 def croute(r):
@@ -242,7 +283,7 @@ def run(ck):
               "(no lib/services directory, no redirects.json, OAuth AS/RS disabled)")
     ck.trusted("harness/C32/find_test.go, router_dump.go, table_test.go (overlays), props/C32.py generators and comparison",
                "correspondence evaluated by vm_compute in generated files")
-    thms = ["C32_refuted", "C32_perm_invariant_at", "C32_perm_invariant", "C32_fewest_vars"]
+    thms = ["C32_refuted", "C32_perm_invariant_at", "C32_perm_invariant", "C32_fewest_vars", "C32_history_table", "C32_stateless"]
     coq_ok = ck.coq_stage(GROUP, theorems=thms)
 
     H = os.path.join(vf.HARNESS, "C32")
@@ -256,7 +297,7 @@ def run(ck):
     # ------------------------------------------------------------------ generated tables
     if ck.replay_file:
         rp = json.load(open(ck.replay_file))["replay"]
-        cases = [{"routes": rp["routes"], "reqs": rp["reqs"]}] if "routes" in rp else CORPUS
+        cases = [{"routes": rp["routes"], "reqs": rp["reqs"]}] if "routes" in rp else CORPUS[:1]
     else:
         cases = CORPUS + gen_cases(ck.rng, 130 if quick else 1500)
     inp, outp = os.path.join(ck.work, "in.json"), os.path.join(ck.work, "out.json")
@@ -312,6 +353,74 @@ def run(ck):
                         q[0], q[1], routes, ro["res"], sorted(M), det), replay=rep, found_input=False)
     for c in cases[:2]:
         ck.sample({"routes": c["routes"], "request": c["reqs"][0], "real": real[cases.index(c)][0]["res"]})
+
+    # ------------------------------------------------------------------ histories: registrations and lookups interleaved
+    nhl = 0
+    if ck.replay_file:
+        hists = [rp["history"]] if "history" in rp else []
+    else:
+        hists = HIST_CORPUS + gen_histories(ck.rng, cases[len(CORPUS):], 40 if quick else 400)
+    if hists:
+        hin, hout = os.path.join(ck.work, "hin.json"), os.path.join(ck.work, "hout.json")
+        json.dump({"orders": 3 if quick else 6, "calls": 4 if quick else 8, "histories": hists}, open(hin, "w"))
+        rc, log = vf.run_bin(binp, "^TestVerifHistory$", {"VERIF_IN": hin, "VERIF_OUT": hout})
+        if rc != 0:
+            ck.violation("harness-run", "history harness failed:\n" + log[-1500:], replay={"log": log[-3000:]}, found_input=False)
+        else:
+            hreal = json.load(open(hout))
+            looks = [history_lookups(h) for h in hists]
+            hmodel = None
+            if coq_ok:
+                # consecutive lookups against the same table are one model "case"
+                mcases, where = [], []
+                for hi, ls in enumerate(looks):
+                    for li, (tab, q) in enumerate(ls):
+                        if mcases and where[-1][0] == hi and mcases[-1]["routes"] == tab:
+                            mcases[-1]["reqs"].append(q)
+                        else:
+                            mcases.append({"routes": tab, "reqs": [q]})
+                        where.append((hi, len(mcases) - 1, len(mcases[-1]["reqs"]) - 1))
+                mres, merr = model_eval(ck, mcases, "hcases")
+                if mres is None:
+                    ck.violation("correspondence-eval", "model evaluation of the histories failed:\n" + merr[-1500:],
+                                 replay={"log": merr[-3000:]}, found_input=False)
+                else:
+                    hmodel, k = [[None] * len(ls) for ls in looks], 0
+                    for hi, ls in enumerate(looks):
+                        for li in range(len(ls)):
+                            _, ci, qi = where[k]
+                            hmodel[hi][li] = mres[ci][qi]
+                            k += 1
+            for hi, ls in enumerate(looks):
+                for li, (tab, q) in enumerate(ls):
+                    nhl += 1
+                    nevals += 1
+                    ro = hreal[hi][li]
+                    R = {rcode(tab, r) for r in ro["res"]}
+                    F = {rcode(tab, r) for r in ro["fresh"]}
+                    rep = {"history": hists[hi], "lookup_index": li, "request": q, "registered_so_far": tab,
+                           "in_history": ro["res"], "fresh_router_same_table": ro["fresh"]}
+                    if len(tab) >= 2:
+                        nontriv.add(json.dumps(["hist", tab, q]))
+                    # oracle: the answer depends on the table at the time of the request only, not on earlier lookups.
+                    # (ties make both sets random samples, so the fresh router is decisive only when the request is decided)
+                    if hmodel:
+                        M, det, stage = hmodel[hi][li]
+                        if -1 in R or not R <= M or (det and R != M):
+                            if det and F == M:
+                                ck.violation("history-dependent", "lookup #%d %s %r in a history answers %r, but a fresh router holding "
+                                             "the same %d routes answers %r, as the model does (history %r)" % (
+                                                 li, q[0], q[1], ro["res"], len(tab), ro["fresh"], hists[hi]), replay=rep)
+                            else:
+                                ck.violation("corr-history", "model/implementation disagree on lookup #%d %s %r of history %r: real %r, "
+                                             "fresh router %r, model codes %r over the %d routes registered so far" % (
+                                                 li, q[0], q[1], hists[hi], ro["res"], ro["fresh"], sorted(M), len(tab)),
+                                             replay=rep, found_input=False)
+                    elif len(F) == 1 and not (R & F):
+                        ck.violation("history-dependent", "lookup #%d %s %r in a history answers %r, but a fresh router holding the same "
+                                     "%d routes answers %r (history %r)" % (li, q[0], q[1], ro["res"], len(tab), ro["fresh"], hists[hi]),
+                                     replay=rep)
+            ck.sample({"history": hists[0], "lookups": hreal[0]})
 
     # ------------------------------------------------------------------ the real table
     ok, binc = vf.go_test_build(ck.work, "internal/commands",
@@ -390,6 +499,7 @@ def run(ck):
     ck.cov["traces_validated_against_impl"] = nevals if model else 0
     ck.cov["input_distribution"] = {"generated_tables": len(cases), "requests": sum(len(c["reqs"]) for c in cases),
                                     "order_dependent_observed": nd_seen, "deciding_stage_histogram": stage_hist,
+                                    "histories": len(hists), "history_lookups": nhl,
                                     "real_table_routes": ntab, "real_table_requests": nreq}
     if not coq_ok and not any(v["found_input"] for v in ck.viol):
         grp, log = ck.coq_broken
